@@ -48,6 +48,7 @@ def run(ctx, db, tier):
     rule(sleep_through_heap, ctx, db)
     rule(sleeper_never_disarmed, ctx, db)
     rule(interval_owns_params, ctx, db)
+    rule(relative_deadline_not_shortened, ctx, db)
     if undecided:
         raise undecided[0]
 
@@ -888,3 +889,135 @@ def interval_owns_params(ctx, db):
         seen.add(f['key'])
         refs = [p['name'] + ': ' + p['type'] for p in f['params'] if p['type'].rstrip().endswith('&')]
         ctx.ob(rid, f, f['key'], not refs, 'all parameters of interval() are by value' + ('' if not refs else ' -- by reference: ' + ', '.join(refs)), desc='interval() takes %s by reference' % ', '.join(r.split(':')[0] for r in refs) if refs else None)
+
+
+# conversions of a chrono value that may make it smaller (they round towards zero / down / to nearest, or leave the chrono domain)
+SHORTENING = ('std::chrono::duration_cast', 'std::chrono::floor', 'std::chrono::round', 'std::chrono::time_point_cast', 'std::chrono::trunc', 'std::chrono::abs',
+              'std::chrono::duration::count', 'std::chrono::operator-', 'std::chrono::operator/', 'std::chrono::operator%', 'std::chrono::operator*',
+              'std::chrono::duration::operator-', 'std::chrono::duration::operator--', 'std::chrono::duration::operator-=', 'std::chrono::duration::operator/=',
+              'std::chrono::duration::operator%=', 'std::chrono::duration::operator*=', 'std::min', 'std::clamp')
+CLOCK_TICK = 'ratio<1, 1000000000>'       # std::chrono::system_clock::duration (libstdc++): the resolution the heap stores time points in
+
+
+def _sum_terms(tr, idx, arg, out, budget=24):
+    """the value `arg` (an argument / path read at position idx of a trace) as a sum: its leaves are appended to out as
+    ('now', None) | ('param', name) | ('short', callee, event) | ('other', what)"""
+    path = arg.get('path') if isinstance(arg, dict) else arg
+    evid = arg.get('ev') if isinstance(arg, dict) else None
+    for _ in range(budget):
+        if not path:
+            out.append(('other', '?')); return
+        m = re.fullmatch(r'(?:move|forward|ctor)\((.*)\)', path)
+        if m and not m.group(1).startswith('call('):
+            path = m.group(1); evid = None; continue
+        if re.fullmatch(r'local:\w+(#\d+)?', path):
+            # later compound updates of the local (tp += x, tp -= x) are part of its value
+            for j in range(idx - 1, -1, -1):
+                x = tr[j]
+                if x.k == 'decl' and x.get('var') == path:
+                    break
+                if x.k == 'call' and x.get('recv') == path and re.search(r'::operator(\+=|-=|\*=|/=|%=|\+\+|--)$', norm(x.get('callee') or '')):
+                    if norm(x['callee']).endswith('operator+='):
+                        _sum_terms(tr, j, (x.get('args') or [{}])[0], out, budget - 1)
+                    else:
+                        out.append(('short', norm(x['callee']), x))
+            q, j = origin_in_trace(tr, idx, path, maxsteps=1)
+            if (q, j) == (path, idx):
+                out.append(('other', path)); return
+            d = tr[j] if j < len(tr) else None
+            evid = d.get('init_ev') if d is not None and d.k == 'decl' else None
+            path, idx = q, j
+            continue
+        if re.fullmatch(r'param:\w+', path):
+            out.append(('param', path[6:])); return
+        m = re.fullmatch(r'(?:ctor\()?call\((.*?)\)\)?', path)
+        if m:
+            callee = norm(m.group(1))
+            cands = [j for j in range(idx - 1, -1, -1) if tr[j].k in ('call', 'construct') and norm(tr[j].get('callee') or '') == callee]
+            byid = [j for j in cands if evid is not None and tr[j].get('id') == evid]
+            j = (byid or cands or [None])[0]
+            if j is None:
+                out.append(('other', path)); return
+            c = tr[j]
+            # a local initialised with this value is named by its initialiser along the path: compound updates of it (tp += x, tp -= x)
+            # appear as operators on that name and are part of the value
+            for x in tr[j + 1:idx]:
+                if x.k == 'call' and x.get('recv') in (path, 'call(%s)' % m.group(1)) and x.get('depth', 0) == c.get('depth', 0) and \
+                        re.search(r'::operator(\+=|-=|\*=|/=|%=|\+\+|--)$', norm(x.get('callee') or '')):
+                    if norm(x['callee']).endswith('operator+=') and x.get('args'):
+                        _sum_terms(tr, pos(tr, x), x['args'][0], out, budget - 1)
+                    else:
+                        out.append(('short', norm(x['callee']), x))
+            if c.get('expanded'):
+                q, k = origin_in_trace(tr, idx, 'call(%s)' % m.group(1), maxsteps=1)
+                if (q, k) == ('call(%s)' % m.group(1), idx):
+                    out.append(('other', path)); return
+                path, idx, evid = q, k, None
+                continue
+            if callee.endswith('::now'):
+                out.append(('now', callee)); return
+            args = c.get('args') or []
+            if callee == 'std::chrono::operator+' and len(args) == 2:
+                _sum_terms(tr, j, args[0], out, budget - 1); _sum_terms(tr, j, args[1], out, budget - 1); return
+            if callee == 'std::chrono::ceil' and args:
+                _sum_terms(tr, j, args[0], out, budget - 1); return
+            if callee == 'std::chrono::duration_cast' and args:
+                # a conversion to the clock's own tick is what the addition to now() performs anyway
+                tgt = re.match(r'[^<]*<\s*(?:struct |class )?std::chrono::duration<[^<>]*, (?:struct |class )?std::(%s)\s*>' % re.escape(CLOCK_TICK), c.get('callee_inst') or '')
+                if tgt:
+                    _sum_terms(tr, j, args[0], out, budget - 1); return
+            if callee in SHORTENING:
+                out.append(('short', callee, c)); return
+            if c.k == 'construct' and re.search(r'std::chrono::(duration|time_point)\b', callee) and len(args) == 1:
+                _sum_terms(tr, j, args[0], out, budget - 1); return       # implicit (lossless) chrono conversion / copy
+            out.append(('other', callee)); return
+        out.append(('other', path)); return
+    out.append(('other', path))
+
+
+def relative_deadline_not_shortened(ctx, db):
+    """never early, for the relative form: the sleeper is due at the time point handed to sleep_until, so that time point must not lie before
+    (time of the call) + (the duration asked for)"""
+    rid = ctx.rule('C12.relative-deadline-not-shortened', 'PATHS+VALUE', 'scheduler::sleep_for: on every path the time point the sleep is registered with (argument of sleep_until / schedule) is '
+                   'the sum of a clock reading taken in the call and the duration parameter itself; on its way into that sum the duration passes through no conversion that can make it '
+                   'smaller (duration_cast / floor / round / time_point_cast / count() arithmetic / subtraction; ceil and the implicit, lossless chrono conversions are fine): a sleep '
+                   'never completes before call time + duration, whatever the resolution of the duration type', floor=1)
+    T = htracer(db)
+    seen = set()
+    for f in db.need('cocls::scheduler::sleep_for'):
+        if f['key'] in seen:
+            continue
+        seen.add(f['key'])
+        durs = {p_['name'] for p_ in f['params'] if 'duration' in (p_.get('type') or '') + (p_.get('ctype') or '')}
+        trs = [t for t in T.traces(f) if live(t)]
+        if T.truncated:
+            raise Broken('path bound exceeded in scheduler::sleep_for')
+        ctx.paths(rid, len(trs))
+        bad = None; und = None; n = 0
+        for tr in trs:
+            regs = [i for i, it in enumerate(tr) if it.k == 'call' and not it.get('expanded') and norm(it.get('callee') or '') == 'cocls::scheduler::sleep_until' and it.get('args')]
+            if not regs:
+                # sleep_until written out in place / expanded: the time point is the one the heap entry is built from
+                regs = [i for i, it in enumerate(tr) if it.k == 'call' and norm(it.get('callee') or '') in ('cocls::scheduler::sleep_until', 'cocls::scheduler::schedule') and it.get('args') and it.get('depth', 0) == 0]
+            if not regs:
+                und = und or 'scheduler::sleep_for: the call that registers the sleep (sleep_until / schedule) was not found on a path'
+                continue
+            for i in regs:
+                n += 1
+                terms = []
+                _sum_terms(tr, i, tr[i]['args'][0], terms)
+                short = [t for t in terms if t[0] == 'short']
+                other = [t for t in terms if t[0] == 'other']
+                nows = [t for t in terms if t[0] == 'now']
+                pars = [t for t in terms if t[0] == 'param']
+                if short:
+                    bad = bad or ('the duration reaches the registered time point through %s, which can make it smaller (sub-resolution part dropped / value reduced): the sleep is registered, '
+                                  'and completes, before call time + duration' % short[0][1], tr)
+                elif other:
+                    und = und or 'scheduler::sleep_for: the time point handed to %s is not a recognised sum of a clock reading and the duration (%s)' % (norm(tr[i]['callee']).split('::')[-1], other[0][1])
+                elif len(nows) != 1 or not pars or any(t[1] not in durs for t in pars):
+                    bad = bad or ('the registered time point is not (one clock reading) + (the duration parameter): found %s' % ', '.join('%s:%s' % (t[0], t[1]) for t in terms), tr)
+        ctx.ob(rid, f, f['key'], bad is None and (n > 0 or und is not None), 'the sleep is registered at now() + the unshortened duration' + ('' if not bad else ' -- ' + bad[0]),
+               desc=bad[0] if bad else None, trace=fmt_trace(bad[1]) if bad else None)
+        if und and not bad:
+            raise Broken(und)
